@@ -1345,6 +1345,13 @@ class Machine:
         result = None
         exc = None
         obs = st.get('obs')
+        flt = st.get('svdfault')
+        sf = None
+        if flt is not None:
+            # S2 layered on the history: the primary SVD backend fails at planned call indices inside this step; the
+            # step then either recovers through the numpy fallback or raises - both are outcomes, the oracles are the same
+            sf = seams.SVDFaults(primary=flt.get('P', ()), all_primary=flt.get('all', False))
+            sf.__enter__()
         try:
             with step_alarm():
                 if obs is not None:
@@ -1363,6 +1370,14 @@ class Machine:
             exc = e
             if isinstance(e, StepTimeout):
                 core.bump(self.res['stats'], 'probe.step_timeout')
+        finally:
+            if sf is not None:
+                sf.__exit__(None, None, None)
+                core.bump(self.res['stats'], 'fault.svd_primary_fired', sf.fired_primary)
+                core.bump(self.res['stats'], 'svd.fallback_completed', sf.fallback_ok)
+                if sf.fired_primary:
+                    core.bump(self.res['stats'], 'steps_with_svd_fault')
+                self.log.add('svdfault', sf.n_primary, sf.fired_primary)
         oc = outcome_class(result, exc)
         core.bump(self.res['stats'], 'steps')
         core.bump(self.res['stats'], 'op.' + name)
@@ -1437,7 +1452,11 @@ def make_step(rng, M, sid):
     return None
 
 
-def run_history(rng, length, res, log, observe_prob=0.3):
+SVD_OPS = ('create', 'round', 'reshape', 'permute', 'to_qtt', 'fast_matvec', 'dmrg_hadamard', 'amen_mv', 'amen_mm', 'amen_solve',
+           'divide', 'cross')
+
+
+def run_history(rng, length, res, log, observe_prob=0.3, fault_prob=0.12):
     M = Machine(res, log)
     sid = 0
     n = 0
@@ -1446,6 +1465,8 @@ def run_history(rng, length, res, log, observe_prob=0.3):
         sid += 1
         if st is None:
             continue
+        if st['op'] in SVD_OPS and rng.random() < fault_prob:
+            st['svdfault'] = {'all': True} if rng.random() < 0.3 else {'P': sorted(set(rng.randint(0, 12) for _ in range(rng.randint(1, 3))))}
         if st['op'] != 'drop' and st['op'] != 'create' and rng.random() < observe_prob:
             L = M.linecount.get(st['op'])
             if L is None or L < 1:
